@@ -111,21 +111,21 @@ theorem tier_add_core (s : State) (o : Obj) (b : Bool) (f : Nat → Option Nat)
       simp [hno, this]
     · simp only [if_neg hi]; exact h1
 
-theorem typOf_addOne (s : State) (o : Obj) (i : Nat) :
-    typOf (addOne s o) i = if i = o.id then o.main else typOf s i := by
-  unfold typOf addOne upd; by_cases hi : i = o.id <;> simp [hi]
+theorem typOf_addOneRepl (s : State) (o : Obj) (i : Nat) :
+    typOf (addOneRepl s o) i = if i = o.id then o.main else typOf s i := by
+  unfold typOf addOneRepl upd; by_cases hi : i = o.id <;> simp [hi]
 
-theorem inv_addOne (s : State) (o : Obj) (h : Inv s) (hc : Consistent s o) : Inv (addOne s o) := by
+theorem inv_addOneRepl (s : State) (o : Obj) (h : Inv s) (hc : Consistent s o) : Inv (addOneRepl s o) := by
   obtain ⟨hm, hb, hr, hd⟩ := h
   constructor
   · intro a i
-    rw [typOf_addOne]
+    rw [typOf_addOneRepl]
     exact tier_add_core s o true s.hMain hm hr hc a i
   · intro a i
-    rw [typOf_addOne]
+    rw [typOf_addOneRepl]
     exact tier_add_core s o false s.hBackup hb hr hc a i
   · intro a i hh
-    simp only [addOne, upd] at hh ⊢
+    simp only [addOneRepl, upd] at hh ⊢
     by_cases ha : a = o.addr
     · subst ha
       simp only [↓reduceIte, Option.some.injEq] at hh
@@ -137,7 +137,7 @@ theorem inv_addOne (s : State) (o : Obj) (h : Inv s) (hc : Consistent s o) : Inv
       · subst hi; exact absurd (hc a m hm').1 ha
       · exact ⟨m, by simp [hi, hm']⟩
   · intro a i hh
-    simp only [addOne, upd] at hh ⊢
+    simp only [addOneRepl, upd] at hh ⊢
     by_cases ha : a = o.addr
     · subst ha
       by_cases hcn : o.addr ∈ s.dom
@@ -149,6 +149,51 @@ theorem inv_addOne (s : State) (o : Obj) (h : Inv s) (hc : Consistent s o) : Inv
       · simp [hcn, this]
       · simp [hcn, this]
 
+
+
+theorem inv_addOneSeen (s : State) (o : Obj) (h : Inv s) (hc : Consistent s o) : Inv (addOneSeen s o) := by
+  obtain ⟨hm, hb, hr, hd⟩ := h
+  -- a stored object keeps its type: its registry entry, if any, already says what `o` says
+  have htyp : ∀ a i, s.all a = some i → typOf (addOneSeen s o) i = typOf s i := by
+    intro a i hai
+    obtain ⟨m, hm'⟩ := hr a i hai
+    unfold typOf addOneSeen upd
+    by_cases hi : i = o.id
+    · subst hi
+      simp only [if_true, hm']
+      exact ((hc a m hm').2).symm
+    · simp [hi]
+  constructor
+  · intro a i
+    show s.hMain a = some i ↔ s.all a = some i ∧ typOf (addOneSeen s o) i = true ∧ s.flag i = true
+    constructor
+    · intro hh
+      have := (hm a i).mp hh
+      exact ⟨this.1, by rw [htyp a i this.1]; exact this.2.1, this.2.2⟩
+    · intro ⟨h1, h2, h3⟩
+      exact (hm a i).mpr ⟨h1, by rw [← htyp a i h1]; exact h2, h3⟩
+  · intro a i
+    show s.hBackup a = some i ↔ s.all a = some i ∧ typOf (addOneSeen s o) i = false ∧ s.flag i = true
+    constructor
+    · intro hh
+      have := (hb a i).mp hh
+      exact ⟨this.1, by rw [htyp a i this.1]; exact this.2.1, this.2.2⟩
+    · intro ⟨h1, h2, h3⟩
+      exact (hb a i).mpr ⟨h1, by rw [← htyp a i h1]; exact h2, h3⟩
+  · intro a i hai
+    obtain ⟨m, hm'⟩ := hr a i hai
+    by_cases hi : i = o.id
+    · subst hi
+      have := hc a m hm'
+      exact ⟨o.main, by simp [addOneSeen, upd, this.1]⟩
+    · exact ⟨m, by simp [addOneSeen, upd, hi, hm']⟩
+  · exact hd
+
+theorem inv_addOne (s : State) (o : Obj) (h : Inv s) (hc : Consistent s o) : Inv (addOne s o) := by
+  unfold addOne
+  split
+  · exact inv_addOneSeen s o h hc
+  · exact inv_addOneRepl s o h hc
 
 theorem typOf_removeOne (s : State) (o : Obj) (i : Nat) :
     typOf (removeOne s o) i = if i = o.id then o.main else typOf s i := by
@@ -302,10 +347,16 @@ theorem consistent_of_wf (attr : Nat → Nat × Bool) (s : State) (o : Obj) (hw 
 theorem regOk_addOne (attr : Nat → Nat × Bool) (s : State) (o : Obj) (hw : WF attr o) (hr : RegOk attr s) :
     RegOk attr (addOne s o) := by
   intro i x h
-  simp only [addOne, upd] at h
-  by_cases hi : i = o.id
-  · subst hi; simp only [↓reduceIte, Option.some.injEq] at h; rw [← h]; exact hw
-  · simp only [if_neg hi] at h; exact hr i x h
+  have key : (upd s.reg o.id (some (o.addr, o.main))) i = some x → x = attr i := by
+    intro h
+    simp only [upd] at h
+    by_cases hi : i = o.id
+    · subst hi; simp only [↓reduceIte, Option.some.injEq] at h; rw [← h]; exact hw
+    · simp only [if_neg hi] at h; exact hr i x h
+  unfold addOne at h
+  split at h
+  · exact key h
+  · exact key h
 
 theorem regOk_removeOne (attr : Nat → Nat × Bool) (s : State) (o : Obj) (hw : WF attr o) (hr : RegOk attr s) :
     RegOk attr (removeOne s o) := by
